@@ -97,3 +97,20 @@ func c06History(r *Run) {
 		}
 	}
 }
+
+// c06UnicodeSpaceContent: content supplied for a slot is content whatever characters it is made of - a text node of no-break / em /
+// ideographic spaces only, alone or between two elements, is supplied content (it is not layout: HTML does not collapse it), so the slot
+// shows it and not its fallback.
+func c06UnicodeSpaceContent() []c06Case {
+	var out []c06Case
+	for _, sp := range []struct{ name, src, text string }{{"nbsp", "&nbsp;", " "}, {"emsp", "&emsp;", " "}, {"ideographic", "　", "　"}, {"nbsp-blank-nbsp", "&nbsp; &nbsp;", "  "}} {
+		out = append(out,
+			c06Case{desc: "unicode-space-content " + sp.name + "/alone", files: map[string]string{"p.vuego": `<template include="c.vuego">` + sp.src + `</template>`, "c.vuego": `<div>[<slot>FB</slot>]</div>`}, data: map[string]any{}, want: "[" + sp.text + "]"},
+			c06Case{desc: "unicode-space-content " + sp.name + "/between", files: map[string]string{"p.vuego": `<template include="c.vuego"><b>a</b>` + sp.src + `<b>b</b></template>`, "c.vuego": `<div>[<slot>FB</slot>]</div>`}, data: map[string]any{}, want: "[a" + sp.text + "b]"},
+			c06Case{desc: "unicode-space-content " + sp.name + "/named", files: map[string]string{"p.vuego": `<template include="c.vuego"><template #head>` + sp.src + `</template></template>`, "c.vuego": `<div>[<slot name="head">FB</slot>|<slot>D</slot>]</div>`}, data: map[string]any{}, want: "[" + sp.text + "|D]"},
+		)
+	}
+	// ASCII white space alone is layout: nothing was supplied, the fallback shows
+	out = append(out, c06Case{desc: "unicode-space-content ascii-blank/alone", files: map[string]string{"p.vuego": "<template include=\"c.vuego\"> \n\t </template>", "c.vuego": `<div>[<slot>FB</slot>]</div>`}, data: map[string]any{}, want: "[FB]"})
+	return out
+}
